@@ -6,3 +6,7 @@ import VibeProof.Props.C09
 #print axioms VibeProof.C09.C09_set_uses_old_values
 #print axioms VibeProof.C09.C09_pk_fastpath
 #print axioms VibeProof.C09.C09_insert
+#print axioms VibeProof.C09.C09_delete_idempotent
+#print axioms VibeProof.C09.C09_delete_sizes
+#print axioms VibeProof.C09.C09_assignments_general
+#print axioms VibeProof.C09.C09_update_sizes
